@@ -400,3 +400,38 @@ def holder_rule(run, rule, tu):
         if not ok:
             run.violation(rule, gl, 'return %s' % rv, 'get_last_code_holder returns holder %s without free + %s <= bound being established'
                           % (rv, sz), line=ret['l'])
+
+
+def rf4d(run, units=('mir', 'gen')):
+    """functions that take part in the code-write protocol must not write published code directly"""
+    rule = 'RF4d'
+    run.rule(rule, 'in every function that calls _MIR_set_code / _MIR_change_code / _MIR_update_code(_arr) — i.e. that patches published '
+                   'code — no memcpy/memmove/memset writes through a pointer parameter: all such writes go through _MIR_set_code, '
+                   'local staging buffers excepted')
+    n = 0
+    patchers = {'_MIR_set_code', '_MIR_change_code', '_MIR_update_code_arr', '_MIR_update_code'}
+    for u in units:
+        tu = run.tu(u)
+        for f in tu.func_list:
+            if f.name == '_MIR_set_code':
+                continue
+            if not any(x['k'] == 'CallExpr' and x.get('callee') in patchers for x in f.walk()):
+                continue
+            run.functions_analysed.add((u, f.name))
+            writes = [x for x in f.walk() if x['k'] == 'CallExpr' and x.get('callee') in RAW_WRITERS]
+            if not writes:
+                n += 1
+                run.ob(rule, (u, f.name), True, {'function': f.name, 'raw writes': 0})
+            for w in writes:
+                n += 1
+                dst = F.call_args(w)[0]
+                roots = [x for x in F.walk(dst) if x['k'] == 'DeclRefExpr' and x.get('dk') in ('param', 'local', 'global', 'slocal')]
+                root = roots[0] if roots else None
+                bad = root is not None and root.get('dk') == 'param' and tu.type(root).kind == 'ptr'
+                run.ob(rule, (u, f.name, w['l']), not bad, {'site': '%s:%d %s' % (f.relfile(), w['l'], f.name), 'write': F.src(w)[:70],
+                                                            'destination rooted at': '%s (%s)' % (root['n'], root.get('dk')) if root else '?'})
+                if bad:
+                    run.violation(rule, f, 'raw write %s' % F.src(w)[:50],
+                                  '%s patches code through the protocol but also writes %s directly through its pointer parameter %s: '
+                                  'published code is written without a write-access request' % (f.name, F.src(w)[:60], root['n']), line=w['l'])
+    return n
